@@ -567,12 +567,17 @@ def sPart (imag : Bool) (v : SVal) : R SVal :=
     .ok (.num (.untyped .float) (.re (if imag then i else r)))
   | _ => .error .invalidOp
 
-/-- `complex(re, im)` on two untyped constants -/
+/-- `complex(re, im)` on two untyped constants.  An argument that is itself held as a complexConst
+(an untyped complex constant with zero imaginary part) becomes a *part* of the new complexConst as
+it is; constants with such a part are not modelled (`inexact` = outside the modelled fragment; the
+values are right, but e.g. `imag(c) < 0` is then refused — known findings `complex-*-part-held-as-complex`) -/
 def sComplex (va vb : SVal) : R SVal :=
   match va, vb with
   | .num (.untyped _) a, .num (.untyped _) b =>
     if !nZero (asCplx a).2 || !nZero (asCplx b).2 then .error .truncated
-    else .ok (.num (.untyped .complex) (.cplx (asCplx a).1 (asCplx b).1))
+    else match a, b with
+      | .re x, .re y => .ok (.num (.untyped .complex) (.cplx x y))
+      | _, _ => .error .inexact
   | _, _ => .error .invalidOp
 
 /-- `parseBasicLiteral(FloatLiteral)`: a literal whose 512-bit value needs fewer than 53 bits is a
